@@ -408,6 +408,13 @@ func nMatches(op, d string) int {
 	return -1
 }
 
+// nPieces is the length of the array returned by split (first number of the dump).
+func nPieces(d string) int {
+	n := -1
+	fmt.Sscanf(d, "%d[", &n)
+	return n
+}
+
 // nullable reports whether the pattern can match the empty string, decided on the syntax tree of the
 // translated pattern (Go regexp/syntax); false for patterns Go regexp cannot parse.
 func nullable(p, f string) bool {
@@ -563,6 +570,15 @@ func rootCause(p, f string, s *subject, patch int, b *bad) string {
 	case b.Kind != "diff":
 		return ""
 	}
+	// ---- disagreements between the two engine libraries whose trigger (feature x subject class) is unambiguous
+	switch {
+	case has(pf, "dot") && !fl("s") && has(sc, "LS"):
+		return "engine|dot|regexp2 dot matches U+2028"
+	case has(pf, `\b`) && (has(sc, "bmp") || has(sc, "longs") || has(sc, "kelvin")):
+		return `engine|\b|regexp2 word boundary counts non-ASCII letters as word characters`
+	case has(pf, `\w`) && fl("i") && (has(sc, "longs") || has(sc, "kelvin")):
+		return `engine|\w+i|U+017F and U+212A are word characters for re2 but not for regexp2`
+	}
 	// ---- path-level defects (shape-checked)
 	switch {
 	case has(pf, "named-group") && fl("u") && !asciiOnly(s) && (strings.HasSuffix(s1, "re2") || strings.HasSuffix(s2, "re2")) &&
@@ -578,17 +594,11 @@ func rootCause(p, f string, s *subject, patch int, b *bad) string {
 		if a, o := nOf("fast-re2"); a < o {
 			return "fast-path|global match/replace|re2 FindAll skips an empty match adjacent to the previous match"
 		}
-	case b.Op == "split" && (s1 == "fast-rx2" || s2 == "fast-rx2" || oneFast && !asciiOnly(s) && (!fl("u") || !validUTF16(s))) && nullable(p, f):
+	case b.Op == "split" && (s1 == "fast-rx2" || s2 == "fast-rx2" || oneFast && !asciiOnly(s) && (!fl("u") || !validUTF16(s))) && nullable(p, f) && nPieces(b.D1) != nPieces(b.D2):
 		return "fast-path|split|regexp2 iteration: an empty match adjacent to the previous match yields an extra empty piece"
 	}
-	// ---- disagreements between the two engine libraries (feature-keyed)
+	// ---- remaining disagreements between the two engine libraries (feature-keyed)
 	switch {
-	case has(pf, "dot") && !fl("s") && has(sc, "LS"):
-		return "engine|dot|regexp2 dot matches U+2028"
-	case has(pf, `\b`) && (has(sc, "bmp") || has(sc, "longs") || has(sc, "kelvin")):
-		return `engine|\b|regexp2 word boundary counts non-ASCII letters as word characters`
-	case has(pf, `\w`) && fl("i") && (has(sc, "longs") || has(sc, "kelvin")):
-		return `engine|\w+i|U+017F and U+212A are word characters for re2 but not for regexp2`
 	case !fl("u") && (has(pf, "astral-literal") || has(pf, `\uSurrogate`)) && (has(sc, "astral") || has(sc, "lonehi") || has(sc, "lonelo")) && len(pf) > 1:
 		return "engine|surrogate literal (no u flag)|regexp2 misses a multi-unit literal containing a surrogate code unit that follows a non-literal atom"
 	case quantifiedNullableCapture(p, f):
